@@ -291,10 +291,17 @@ fn main() {
         "omap" => {
             let steps: usize = arg(&args, "--steps", "200").parse().unwrap();
             let mut o = omaprun::Out { cases: vec![], imp: vec![], oracle: vec![], stats: BTreeMap::new(), samples: vec![], nontrivial: 0, histories: 0 };
-            let mut r = rng::Rng::new(seed);
-            for _ in 0..n {
-                let mut hr = r.fork();
-                omaprun::run_history(&mut hr, steps, &mut o);
+            let replay = arg(&args, "--replay", "");
+            if !replay.is_empty() {
+                // --replay FILE: the operation lines of one history (ins/ior/rk/rv/reserve/value/values, hex numbers)
+                let lines: Vec<String> = std::fs::read_to_string(&replay).expect("replay file").lines().map(|l| l.to_string()).collect();
+                omaprun::replay(&lines, &mut o);
+            } else {
+                let mut r = rng::Rng::new(seed);
+                for _ in 0..n {
+                    let mut hr = r.fork();
+                    omaprun::run_history(&mut hr, steps, &mut o);
+                }
             }
             write_lines(&format!("{}/cases.txt", out), &o.cases);
             write_lines(&format!("{}/impl.txt", out), &o.imp);
